@@ -24,7 +24,7 @@ type Sig struct {
 	Mode    string // named | unnamed | blank | hostile | minted
 }
 
-var hostileNames = []string{"f", "g", "err", "param_0", "v0", "in", "out", "this", "that", "list", "param_1", "innerParam_0", "h", "m", "res0", "ok", "success"}
+var hostileNames = []string{"f", "g", "err", "param_0", "v0", "in", "out", "this", "that", "list", "param_1", "innerParam_0", "h", "m", "res0", "ok", "success", "e", "out0", "out1", "v", "c", "i", "wait", "mem", "input", "output"}
 
 // NameParams assigns parameter names according to a naming mode.
 func NameParams(t *rapid.T, n int, mode string) []string {
